@@ -34,14 +34,15 @@ def gen_wrapper_src(spec, ob):
     """typed wrapper with PEP316 preconditions, generated from the metadata"""
 
     params = ob.params
-    part   = spec.get('part') or {}
+    part   = dict(spec.get('ranges') or {})     # shape-specific ranges
+    part.update(spec.get('part') or {})         # narrowed by the partition
     sig    = []
     pres   = []
     for p, dom in params.items():
         if dom == 'bool':
             sig.append('%s: bool' % p)
         else:
-            lo, hi = part.get(p, dom)
+            lo, hi = part.get(p) or dom
             sig.append('%s: int' % p)
             pres.append('%d <= %s <= %d' % (lo, p, hi))
     for region in spec.get('excl') or []:
